@@ -1,3 +1,6 @@
+Agg/Instance.vo Agg/Instance.glob Agg/Instance.v.beautified Agg/Instance.required_vo: Agg/Instance.v Ir/Syntax.vo Ir/Fold.vo
+Agg/Instance.vio: Agg/Instance.v Ir/Syntax.vio Ir/Fold.vio
+Agg/Instance.vos Agg/Instance.vok Agg/Instance.required_vos: Agg/Instance.v Ir/Syntax.vos Ir/Fold.vos
 Check/Priorities.vo Check/Priorities.glob Check/Priorities.v.beautified Check/Priorities.required_vo: Check/Priorities.v 
 Check/Priorities.vio: Check/Priorities.v 
 Check/Priorities.vos Check/Priorities.vok Check/Priorities.required_vos: Check/Priorities.v 
